@@ -1,6 +1,6 @@
 (* Proofs/Client.v — lemmas about Model/Client.v (C20). *)
 From Coq Require Import ZArith Lia List Bool String Ascii.
-From ACN Require Import Base.Num Base.Calendar Model.Client.
+From ACN Require Import Base.Num Base.Calendar Gen.ClientShape Model.Client.
 Import ListNotations.
 Open Scope string_scope.
 Ltac Zify.zify_post_hook ::= Z.to_euclidean_division_equations.
@@ -343,7 +343,7 @@ Proof. intro H. unfold get_sessions. now rewrite H. Qed.
 
 Lemma valid_site_iff s : valid_site s = true <-> s = "caltech" \/ s = "jpl" \/ s = "office001".
 Proof.
-  unfold valid_site. rewrite !orb_true_iff, !String.eqb_eq. tauto.
+  unfold valid_site, K_valid_sites. cbn [existsb]. rewrite !orb_true_iff, !String.eqb_eq. intuition discriminate.
 Qed.
 
 Lemma first_request tz base q responses : valid_site (q_site q) = true ->
@@ -356,7 +356,8 @@ Lemma first_url_full base site c p s :
   first_url base {| q_site := site; q_cond := Some c; q_project := Some p; q_sort := Some s; q_timeseries := false |}
   = base ++ "sessions/" ++ site ++ "?where=" ++ c ++ "&project=" ++ p ++ "&sort=" ++ s ++ "&max_results=100".
 Proof.
-  unfold first_url, query_args, opt_arg. cbn [q_site q_cond q_project q_sort q_timeseries app join].
+  unfold first_url, query_args, opt_arg, K_endpoint, K_ts_suffix, K_query_mark, K_arg_sep, K_arg_cond, K_arg_project,
+    K_arg_sort, K_arg_max_results, K_limit, K_limit_ts. cbn [q_site q_cond q_project q_sort q_timeseries app join].
   repeat progress (rewrite ?sapp_assoc; cbn [append]). reflexivity.
 Qed.
 
@@ -369,7 +370,8 @@ Lemma first_url_ts base site c :
   first_url base {| q_site := site; q_cond := Some c; q_project := None; q_sort := Some "connectionTime"; q_timeseries := true |}
   = base ++ "sessions/" ++ site ++ "/ts/?where=" ++ c ++ "&sort=connectionTime&max_results=1".
 Proof.
-  unfold first_url, query_args, opt_arg. cbn [q_site q_cond q_project q_sort q_timeseries app join].
+  unfold first_url, query_args, opt_arg, K_endpoint, K_ts_suffix, K_query_mark, K_arg_sep, K_arg_cond, K_arg_project,
+    K_arg_sort, K_arg_max_results, K_limit, K_limit_ts. cbn [q_site q_cond q_project q_sort q_timeseries app join].
   repeat progress (rewrite ?sapp_assoc; cbn [append]). reflexivity.
 Qed.
 
@@ -392,3 +394,12 @@ Proof.
   rewrite (year_ok_in_range _ _ H1), (year_ok_in_range _ _ H2). cbn [res_map res_bind app join].
   f_equal. repeat progress (rewrite ?sapp_assoc; cbn [append]). reflexivity.
 Qed.
+
+(* the literals regenerated from the code are the ones the model was written for *)
+Lemma client_literals :
+  K_strftime_format = rfc1123_format /\ K_strptime_format = rfc1123_format /\
+  K_valid_sites = ["caltech"; "jpl"; "office001"] /\ K_site_error = "ValueError" /\
+  K_endpoint = "sessions/" /\ K_ts_suffix = "/ts/" /\ K_limit = "100" /\ K_limit_ts = "1" /\
+  K_arg_cond = "where=" /\ K_arg_project = "project=" /\ K_arg_sort = "sort=" /\
+  K_arg_max_results = "max_results=" /\ K_query_mark = "?" /\ K_arg_sep = "&".
+Proof. repeat split; reflexivity. Qed.
